@@ -44,6 +44,9 @@ type c08Replay struct {
 }
 
 func c08Case(w *core.Worker, i int) {
+	if i%8 == 5 {
+		c08FileAttrs(w, i)
+	}
 	total := len(c08Stmts) * len(c08Fails) * len(c08Ks) * len(c08States) * len(c08Sizes)
 	round := i / total
 	x := i % total
